@@ -36,6 +36,13 @@ def run(ctx):
     S.rule_connection_task_pushes(ctx, "C07.5")
     n = Q.rule_under_lock_effects(ctx, "C07.6")
     ctx.floor("C07.6 calls under the queue lock", n, 8)
+    # ---- C07.8 a freshly accepted connection is read from: its parser starts with the gate open whatever the socket reports about the peer
+    import rules_C12, engine, parser_rules as PRS
+    c2 = engine.Ctx("C07", "quick", facts, 0)
+    PM_ = PRS.pmodel(facts)
+    rules_C12.run_rest(c2, PM_, PM_.nxt, PM_.flag)
+    n8 = engine.take_over(ctx, c2.obs, lambda o: o.rule == "C12.2" and (o.key.startswith("C12.2|flag-init") or o.key.endswith("|flag-clear-reads")), "C07.8")
+    ctx.floor("C07.8 obligations on the parser's gate at construction", n8, 1)
     msg, shapes = S.message_shapes(facts)
     for tr in (T_CLONE, T_COPY):
         ctx.ob("C07.7", "noimpl|%s|%s" % (tr, REQ), "a Request cannot be duplicated, so at most one receiver obtains it", not facts.has_impl(tr, REQ), REQ)
